@@ -269,6 +269,16 @@ def potentially_unifying(lhs: AST, rhs: AST) -> bool:
     return False
 
 
+def characteristic_variables(term: AST) -> Iterator[AST]:
+    """yield all variables of a term that identify it: variables that occur plainly or as arguments of (nested)
+    function terms, but not inside arithmetic (X/2 is the same term for different X)"""
+    if term.ast_type == ASTType.Variable:
+        yield term
+    elif term.ast_type == ASTType.Function:
+        for arg in term.arguments:
+            yield from characteristic_variables(arg)
+
+
 def body_predicates(rule: AST, signs: SignSetType) -> Iterator[SignedPredicate]:
     """
     yields all predicates used in the rule body as (name, arity) that have a sign in the set signs
